@@ -26,11 +26,11 @@ func init() {
 
 // vfs local caches: not replica/restore names, rebuilt from the replica on open.
 var createExceptions = map[string]string{
-	"(*ls.VFS).openTempFile":             "SQLite temp files of the VFS (scratch space, never read back after a restart)",
-	"(*ls.Hydrator).Init":                "local hydration cache of the VFS; validity is tracked by the separately published .meta file (tmp + rename)",
+	"(*ls.VFS).openTempFile":                "SQLite temp files of the VFS (scratch space, never read back after a restart)",
+	"(*ls.Hydrator).Init":                   "local hydration cache of the VFS; validity is tracked by the separately published .meta file (tmp + rename)",
 	"(*ls.VFSFile).initWriteBufferWithLock": "VFS write buffer, explicitly discarded on restart",
-	"ls/internal.CreateFile":             "helper: creates the path given by its caller (callers are checked)",
-	"ls.defaultOpenLTXFile":              "helper installed in the DB.openLTXFile slot: opens the path given by (*DB).sync (checked at the slot call)",
+	"ls/internal.CreateFile":                "helper: creates the path given by its caller (callers are checked)",
+	"ls.defaultOpenLTXFile":                 "helper installed in the DB.openLTXFile slot: opens the path given by (*DB).sync (checked at the slot call)",
 }
 
 // tmpProvenance reports whether path value v provably names a temporary file.
@@ -105,7 +105,9 @@ func runC03(c *Ctx) {
 			for root.Parent() != nil {
 				root = root.Parent()
 			}
-			if rel, _ := relPkg(root.Pkg.Pkg); rel == "cmd/litestream" {
+			if tp := typesPkgOf(root); tp == nil {
+				continue
+			} else if rel, _ := relPkg(tp); rel == "cmd/litestream" {
 				continue // CLI: config/log files, not replica state
 			}
 			for _, call := range calls(fn) {
@@ -429,7 +431,6 @@ func runC03(c *Ctx) {
 		c.floor(rule, n, 6, "staging sites")
 	}
 }
-
 
 // c03StagingOpen (R7): the staging file of a rename is created with truncate
 // semantics and never with O_EXCL (a SIGKILL leaves the deterministic .tmp
